@@ -19,7 +19,7 @@ EXPLANATION = ("Decides structural necessary conditions of subtree composition, 
 TRUSTED = ["rustc nightly MIR (-Zmir-opt-level=0)", "mirfacts serialisation", "engines/rules/absint.py transfer "
            "functions for core integer methods (next_power_of_two, trailing_zeros, div_ceil, min/max)",
            "engines/rules/mirlib.py dominance and value-flow"]
-ASSUMPTIONS = ["usize is 64-bit for the declared domains (x86_64 and riscv64 configurations analysed)"]
+ASSUMPTIONS = ["usize is 64 or 32 bits wide as the analysed configuration says (thorough tier includes riscv32 and i686)"]
 TECHNIQUE = "abstract interpretation (interval x congruence) of MIR + dominance/value-flow pattern rules + reset write-set fixpoint + known-bits flag dataflow"
 DESIGN_REF = "DESIGN.md section 2 (H1, H2, S5, F6) and section 4 (C09)"
 
@@ -42,4 +42,12 @@ def run(ctx):
                    ("Fl", r_flags.rule_F_literals), ("F5", r_flags.rule_F5), ("F6", r_flags.rule_F6), ("K3M1", r_consts.rule_K3_M1),
                    ("W1", r_globals.rule_W1), ("G3", r_globals.rule_G3), ("ZP", r_state.rule_ZP)):
         ctx.run_rule(nm, fn, cfgs)
-    ctx.run_rule("LZ", r_state.rule_LZ, [c for c in cfgs if c not in ("portable1", "asm-nostd", "neon1")])
+    ctx.run_rule("LZ", r_state.rule_LZ, [c for c in cfgs if c not in __import__("extract").NO_STD])
+    # chunk counters >= 2^32 are reachable only through set_input_offset: the 64-bit counter handling of every hash_many kernel
+    # (lane counters of the C/Rust intrinsics kernels, the assembled kernels decided region by region) belongs to this property
+    import r_round
+    import r_asmsym
+    ctx.run_rule("K4c", r_round.rule_K4_c)
+    ctx.run_rule("K4r", r_round.rule_K4_rust, ["pure-full"])
+    ctx.run_rule("R1asm1", r_asmsym.rule_R1asm_single)
+    ctx.run_rule("R1asmH", r_asmsym.rule_R1asm_hash)
